@@ -222,11 +222,13 @@ func (c *ctx) write(outDir string) error {
 	}
 	// summary for the orchestrator
 	feat := map[string]bool{}
+	inputs := map[string]bool{}
 	nontriv := 0
 	for _, k := range c.cases {
 		if !k.Trivial {
 			nontriv++
 			feat[k.Feature] = true
+			inputs[k.Kind+"|"+k.Model] = true // the model term holds the whole input of the case
 		}
 	}
 	var fails []*caseRec
@@ -260,7 +262,8 @@ func (c *ctx) write(outDir string) error {
 		"seed":                c.seed,
 		"evaluations":         len(c.cases),
 		"nontrivial":          nontriv,
-		"distinct_nontrivial": len(feat),
+		"distinct_nontrivial": len(inputs),
+		"distinct_features":   len(feat),
 		"shards":              nshards,
 		"distribution":        dist,
 		"prop_fails":          fails,
